@@ -8,7 +8,8 @@ time, so a run is a deterministic function of the list of choices.  `explore` en
 schedules up to a preemption bound by stateless depth-first search with replay: every run
 executes a prefix of forced choices and then the default policy (stay on the current thread;
 when it has finished, the lowest enabled one), and yields the alternative prefixes that
-deviate from it once more.
+deviate from it once more.  `only_lines` restricts the yield points to the given line numbers
+(sound when the other lines touch thread-local data only).
 
 Every blocking wait has a generous timeout that raises HarnessError (a harness failure, never
 a property violation).
@@ -26,9 +27,10 @@ class HarnessError(Exception):
 class Run:
     """One execution of `fns` (list of zero-argument callables, one per controlled thread)."""
 
-    def __init__(self, fns, traced_files):
+    def __init__(self, fns, traced_files, only_lines=None):
         self.fns = fns
         self.files = set(traced_files)
+        self.only = set(only_lines) if only_lines is not None else None
         self.n = len(fns)
         self.go = [threading.Semaphore(0) for _ in fns]
         self.posted = threading.Semaphore(0)
@@ -40,9 +42,10 @@ class Run:
     # ---- controlled thread side
     def _tracer(self, tid):
         files = self.files
+        only = self.only
 
         def local(frame, event, arg):
-            if event == "line":
+            if event == "line" and (only is None or frame.f_lineno in only):
                 self._yield(tid, frame.f_lineno)
             return local
 
@@ -124,7 +127,7 @@ class Run:
         return out
 
 
-def explore(make, traced_files, bound, roots=None, limit=None):
+def explore(make, traced_files, bound, roots=None, limit=None, only_lines=None):
     """Enumerate schedules. `make()` -> (fns, observe) builds a fresh case; observe() is called
     after the run.  Yields (choices, trace, observation).  `roots`: list of start prefixes
     (default [[]]).  Depth first, deterministic order."""
@@ -133,7 +136,7 @@ def explore(make, traced_files, bound, roots=None, limit=None):
     while stack:
         prefix = stack.pop()
         fns, observe = make()
-        run = Run(fns, traced_files).execute(prefix)
+        run = Run(fns, traced_files, only_lines).execute(prefix)
         yield [s[0] for s in run.steps], run.trace, observe()
         n += 1
         if limit is not None and n >= limit:
@@ -141,8 +144,16 @@ def explore(make, traced_files, bound, roots=None, limit=None):
         stack.extend(reversed(run.alternatives(len(prefix), bound)))
 
 
-def run_one(make, traced_files, choices):
+def run_one(make, traced_files, choices, only_lines=None):
     """Replay exactly `choices` (then the default policy). Returns (choices, trace, obs)."""
     fns, observe = make()
-    run = Run(fns, traced_files).execute(list(choices))
+    run = Run(fns, traced_files, only_lines).execute(list(choices))
     return [s[0] for s in run.steps], run.trace, observe()
+
+
+def split_roots(make, traced_files, bound, only_lines=None):
+    """Run the default schedule once; returns ((choices, trace, obs), alternative prefixes).
+    explore(roots=[[]]) == that record + explore(roots=alternatives) (used to shard the search)."""
+    fns, observe = make()
+    run = Run(fns, traced_files, only_lines).execute([])
+    return ([s[0] for s in run.steps], run.trace, observe()), run.alternatives(0, bound)
